@@ -97,8 +97,8 @@ def run_sched_property(pid, tier, seed, level="other", level_note=None, extra_ca
                 mon_viol.append((key, v))
         viol_count = 0
         ci = dict(schedcheck.CI_STATS)
-        if ci["gi_failures"] or ci["pc_failures"]:
-            problems = problems + ["the concurrent invariant CI (GI + program-counter consistency) fails on a state of the model reached by an executed schedule: %s" % ci.get("first")]
+        if ci["gi_failures"] or ci["pc_failures"] or ci["lin_failures"]:
+            problems = problems + ["the concurrent invariant CI (GI + program-counter consistency) or the linearization-point check (abs changes exactly at linearization points, as the specification says) fails on a state of the model reached by an executed schedule: %s" % ci.get("first")]
         proof_broken = bool(problems)
         if mon_viol:
             key, v = mon_viol[0]
